@@ -736,6 +736,25 @@ class ProgGen:
         if len(vs) < 2:
             return self.s_reassign(depth)
         a, b = self.r.sample(vs, 2)
+        impure = [f for f in self.funcs if f.ret == "int" and not f.pure]
+        if impure and not self.in_function and self.chance(0.4):
+            # right-hand sides that CALL helpers with effects: every value is computed (left to right) before any target is stored
+            f = self.r.choice(impure)
+            g = next((v for v in vs if f.mutates == v.name), None)
+            if g is not None and self.chance(0.6):
+                other = next(v for v in vs if v is not g)
+                args = ", ".join(self.expr(t, 2) for t in f.params)
+                self.emit(f"{g.name}, {other.name} = {g.name} + 1, {f.name}({args})")   # the helper's own update of g is overwritten
+                self.feat("tuple-update-call-mutating-target")
+            else:
+                f2 = self.r.choice(impure)
+                args1 = ", ".join(self.expr(t, 2) for t in f.params)
+                args2 = ", ".join((a.name if t == "int" else self.expr(t, 2)) for t in f2.params)
+                self.emit(f"{a.name}, {b.name} = {f.name}({args1}), {f2.name}({args2})")            # f runs before f2, f2 sees the old a
+                self.feat("tuple-update-two-calls")
+            self.observe(a)
+            self.observe(b)
+            return
         form = self.r.choice(["{b}, abs({a} + {b}) % 97", "abs({a} + 1) % 50, {a}", "{b} - 1, abs({a} * 2) % 89", "{b}, abs({a} - {b}) % 61"])
         self.emit(f"{a.name}, {b.name} = " + form.format(a=a.name, b=b.name))
         self.feat("tuple-update")
